@@ -103,7 +103,7 @@ func (p *Parser) parseComparisonExpression() (ast.Expression, error) {
 	notPrefix := false
 	if p.isType(models.TokenTypeNot) {
 		nextToken := p.peekToken()
-		nextUpper := strings.ToUpper(nextToken.Literal)
+		nextUpper := keywordText(nextToken)
 		if nextUpper == "BETWEEN" || nextUpper == "LIKE" || nextUpper == "ILIKE" || nextUpper == "IN" {
 			notPrefix = true
 			p.advance() // Consume NOT only if followed by valid operator
@@ -686,7 +686,7 @@ func (p *Parser) parsePrimaryExpression() (ast.Expression, error) {
 			}
 
 			// MySQL MATCH(...) AGAINST(...) full-text search
-			if strings.EqualFold(identName, "MATCH") && strings.EqualFold(p.currentToken.Literal, "AGAINST") {
+			if strings.EqualFold(identName, "MATCH") && keywordText(p.currentToken) == "AGAINST" {
 				return p.parseMatchAgainst(funcCall)
 			}
 
